@@ -133,7 +133,9 @@ Section Parse.
                                 | Some (EscLit l, r4) => Some (l, r4)
                                 | _ => None
                                 end
-                              else if mem_cp e [91; 93; 94; 45; 38; 126]%N then None
+                              else if mem_cp e [91; 93; 94; 45]%N then None
+                              else if mem_cp e [38; 126]%N then
+                                (match r3 with d :: _ => if N.eqb d e then None else Some (e, r3) | [] => Some (e, r3) end)   (* && ~~ *)
                               else Some (e, r3) in
                             match hi_item with
                             | Some (hi, r4) => if N.leb lo hi then parse_class_items f x r4 ((lo, hi) :: acc) else None
